@@ -22,6 +22,125 @@ use crate::{
     Error, PartialErrorBuilder,
 };
 
+/// Verification hooks for the parallel walker's work distribution protocol.
+///
+/// This module only exists when the crate is compiled with
+/// `--cfg ripgrep_verif`. It lets an external scheduler serialise the worker
+/// threads of `WalkParallel` (one thread runs between two yield points) and
+/// observe the state the workers share. Nothing here changes what the walker
+/// does: every callback is a no-op until one is installed.
+#[cfg(ripgrep_verif)]
+pub mod verif {
+    use std::{
+        path::PathBuf,
+        sync::{Arc, RwLock},
+    };
+
+    /// Yield point at the top of `Stack::push`.
+    pub const PUSH: u32 = 1;
+    /// Yield point at the top of `Stack::pop` (before the pop of the
+    /// worker's own deque).
+    pub const POP: u32 = 2;
+    /// Yield point at the top of `Stack::steal`.
+    pub const STEAL: u32 = 3;
+    /// Yield point before each `steal_batch_and_pop` on one victim.
+    pub const STEAL_ONE: u32 = 4;
+    /// Yield point at the top of `Worker::deactivate_worker`.
+    pub const DEACTIVATE: u32 = 5;
+    /// Yield point at the top of `Worker::activate_worker`.
+    pub const ACTIVATE: u32 = 6;
+    /// Yield point at the top of `Worker::is_quit_now`.
+    pub const IS_QUIT_NOW: u32 = 7;
+    /// Yield point at the top of `Worker::quit_now`.
+    pub const QUIT_NOW: u32 = 8;
+    /// Yield point before the idle sleep in `Worker::get_work`.
+    pub const SLEEP: u32 = 9;
+    /// Yield point after the loop of `Worker::run` (the worker is done).
+    pub const EXIT: u32 = 10;
+
+    /// What a call of `Worker::recv` in `Worker::get_work` returned.
+    #[derive(Clone, Debug, Eq, PartialEq)]
+    pub enum Received {
+        /// `None`: the own deque was empty and nothing could be stolen.
+        Nothing,
+        /// `Some(Message::Quit)`.
+        Quit,
+        /// `Some(Message::Work(..))` for the entry with this path.
+        Work(PathBuf),
+    }
+
+    /// The state shared by the workers of one parallel walk.
+    #[derive(Clone, Debug, Eq, PartialEq)]
+    pub struct Snapshot {
+        /// The value of the `active_workers` counter.
+        pub active_workers: usize,
+        /// The value of the `quit_now` flag.
+        pub quit_now: bool,
+        /// The number of messages in each worker's deque, by worker index.
+        pub deque_lens: Vec<usize>,
+    }
+
+    /// The type of the yield callback: `(worker index, yield point kind)`.
+    pub type YieldFn = dyn Fn(usize, u32) + Send + Sync;
+    /// The type of the receive callback: `(worker index, what was received)`.
+    pub type ReceivedFn = dyn Fn(usize, &Received) + Send + Sync;
+    /// The type of the function that reads the shared state.
+    pub type SnapshotFn = dyn Fn() -> Snapshot + Send + Sync;
+
+    static YIELD: RwLock<Option<Arc<YieldFn>>> = RwLock::new(None);
+    static RECEIVED: RwLock<Option<Arc<ReceivedFn>>> = RwLock::new(None);
+    static SHARED: RwLock<Option<Arc<SnapshotFn>>> = RwLock::new(None);
+
+    /// Install (or with `None`, remove) the callback invoked at every yield
+    /// point. The callback may block the calling worker thread for as long
+    /// as it wants; that is how a scheduler serialises the workers.
+    pub fn set_yield(cb: Option<Arc<YieldFn>>) {
+        *YIELD.write().unwrap() = cb;
+    }
+
+    /// Install (or with `None`, remove) the callback told about every
+    /// message a worker receives in `Worker::get_work`.
+    pub fn set_received(cb: Option<Arc<ReceivedFn>>) {
+        *RECEIVED.write().unwrap() = cb;
+    }
+
+    /// Read the state shared by the workers of the walk that is running (or
+    /// ran last). Returns `None` when no worker has started since the last
+    /// call of `clear_shared`. The values are only meaningful while no
+    /// worker is running, i.e., when all of them are held at a yield point.
+    pub fn snapshot() -> Option<Snapshot> {
+        let f = SHARED.read().unwrap().clone();
+        f.map(|f| f())
+    }
+
+    /// Forget the shared state registered by the last walk.
+    pub fn clear_shared() {
+        *SHARED.write().unwrap() = None;
+    }
+
+    /// Called by the walker at a yield point.
+    pub(super) fn yield_point(worker: usize, kind: u32) {
+        let cb = YIELD.read().unwrap().clone();
+        if let Some(cb) = cb {
+            cb(worker, kind);
+        }
+    }
+
+    /// Called by the walker after `Worker::recv` returned in `get_work`.
+    pub(super) fn received(worker: usize, what: Received) {
+        let cb = RECEIVED.read().unwrap().clone();
+        if let Some(cb) = cb {
+            cb(worker, &what);
+        }
+    }
+
+    /// Called by every worker when it starts, with a function reading the
+    /// shared state.
+    pub(super) fn register_shared(f: Arc<SnapshotFn>) {
+        *SHARED.write().unwrap() = Some(f);
+    }
+}
+
 /// A directory entry with a possible error attached.
 ///
 /// The error typically refers to a problem parsing ignore files in a
